@@ -226,8 +226,8 @@ Lemma replace_ok h new old other :
 Proof.
   intros H N1 N2 N3. destruct (HI_free h _ 2 old H) as (H1 & H2); [right; now left|]. split; [|exact H2].
   eapply HI_ext; [|exact H1]. unfold own. intros x. split.
-  - intros [[->|[->|->]] Hne]; auto. contradiction.
-  - intros [->| ->]; split; auto.
+  - intros [[-> | [-> | ->]] Hne]; auto. contradiction.
+  - intros [-> | ->]; split; auto.
 Qed.
 
 Definition VI (s : vsys) (m : list (option Z) * list (option Z)) : Prop :=
@@ -254,27 +254,31 @@ Proof.
   - (* Default *)
     pose proof (v_new_ok (hp s) _ 2 4 0 H O ltac:(lia)) as K. unfold v_default. cbv zeta in K.
     destruct (v_new (hp s) 4 0) as [a h1]. cbn [fst snd] in K. destruct K as (K1 & K2 & K3 & K4).
-    destruct (replace_ok h1 (vblk a) (vblk (oa s)) (vblk (ob s)) K2) as (J1 & J2); auto.
-    unfold VI, v_destroy. cbn. repeat split; auto; try apply K1; try apply RB; congruence.
+    destruct (replace_ok h1 (vblk a) (vblk (oa s)) (vblk (ob s)) K2) as (J1 & J2); auto;
+      try (intros E; apply K3; rewrite E; tauto).
+    unfold VI, v_destroy. cbn [oa ob hp fst snd]. split; [exact K1|]. split; [exact RB|]. split; [exact J1|].
+    split; [intros E; apply K3; rewrite E; tauto | rewrite J2; exact K4].
   - (* Ctor *)
     pose proof (v_new_ok (hp s) _ 2 n n H O ltac:(lia)) as K. unfold v_sized. cbv zeta in K.
     destruct (v_new (hp s) n n) as [a h1]. cbn [fst snd] in K. destruct K as (K1 & K2 & K3 & K4).
-    destruct (replace_ok h1 (vblk a) (vblk (oa s)) (vblk (ob s)) K2) as (J1 & J2); auto.
-    unfold VI, v_destroy. cbn. repeat split; auto; try apply K1; try apply RB; congruence.
+    destruct (replace_ok h1 (vblk a) (vblk (oa s)) (vblk (ob s)) K2) as (J1 & J2); auto;
+      try (intros E; apply K3; rewrite E; tauto).
+    unfold VI, v_destroy. cbn [oa ob hp fst snd]. split; [exact K1|]. split; [exact RB|]. split; [exact J1|].
+    split; [intros E; apply K3; rewrite E; tauto | rewrite J2; exact K4].
   - (* Push *)
     pose proof (v_push_ok (hp s) (oa s) ma _ 1 v RA HA ltac:(congruence) O) as K. cbv zeta in K.
     destruct (v_push (hp s) (oa s) v) as [a h1]. cbn [fst snd] in K. destruct K as (K1 & K2 & K3 & K4).
-    unfold VI. cbn. repeat split; auto; try apply K1; try apply RB. exact K2.
+    unfold VI. cbn [oa ob hp fst snd]. split; [exact K1|]. split; [exact RB|]. split; [exact K2|]. split; [exact K3 | exact K4].
   - (* Resize *)
     pose proof (v_resize_ok (hp s) (oa s) ma _ 1 n RA HA ltac:(congruence) O) as K. cbv zeta in K.
     destruct (v_resize (hp s) (oa s) n) as [a h1]. cbn [fst snd] in K. destruct K as (K1 & K2 & K3 & K4).
-    unfold VI. cbn. repeat split; auto; try apply K1; try apply RB. exact K2.
+    unfold VI. cbn [oa ob hp fst snd]. split; [exact K1|]. split; [exact RB|]. split; [exact K2|]. split; [exact K3 | exact K4].
   - (* Write *)
     pose proof RA as (Rs & _). rewrite <- Rs.
-    destruct (Nat.ltb_spec i (vsize (oa s))) as [Hi|Hi]; [|unfold VI; cbn; auto].
+    destruct (Nat.ltb_spec i (vsize (oa s))) as [Hi|Hi]; [|unfold VI; cbn [oa ob hp fst snd]; auto].
     pose proof (v_set_ok (hp s) (oa s) ma _ 2 i v RA HA O Hi) as K. cbv zeta in K.
     destruct (v_set (hp s) (oa s) i (Val v)) as [a h1]. cbn [fst snd] in K. destruct K as (K1 & K2 & K3 & K4).
-    unfold VI. cbn. rewrite K3 in *. repeat split; auto; try apply K1; try apply RB.
+    unfold VI. cbn [oa ob hp fst snd]. split; [exact K1|]. split; [exact RB|]. split; [exact K2|]. split; [rewrite K3; exact NE | exact K4].
   - (* CopyCtor *)
     unfold v_copyctor, v_default.
     pose proof (v_new_ok (hp s) _ 2 4 0 HB O ltac:(lia)) as K. cbv zeta in K.
@@ -285,21 +289,259 @@ Proof.
     pose proof (v_copy_into_ok h2 o2 (oa s) ma _ _ Ls Ll RA L2 L4) as J. cbv zeta in J.
     destruct (v_copy_into h2 o2 (oa s)) as [b h3]. cbn [fst snd] in J. destruct J as (J1 & J2 & J3 & J4).
     rewrite <- J3 in *.
-    destruct (replace_ok h3 (vblk b) (vblk (ob s)) (vblk (oa s)) J2) as (M1 & M2); auto.
-    unfold VI, v_destroy. cbn. repeat split; auto; try apply RA; try apply J1; try congruence.
-    apply HI2_sym. exact M1.
+    unfold own in L3.
+    destruct (replace_ok h3 (vblk b) (vblk (ob s)) (vblk (oa s)) J2) as (M1 & M2);
+      try (intros E; apply L3; rewrite E; tauto); try congruence.
+    unfold VI, v_destroy. cbn [oa ob hp fst snd]. split; [exact RA|]. split; [exact J1|]. split; [apply HI2_sym; exact M1|].
+    split; [intros E; apply L3; rewrite <- E; tauto | rewrite M2; exact J4].
   - (* AssignAB *)
     pose proof (v_assign_ok (hp s) (ob s) mb (oa s) ma _ 1 RB RA HB ltac:(congruence) O) as K. cbv zeta in K.
     destruct (v_assign (hp s) (ob s) (oa s)) as [b h1]. cbn [fst snd] in K. destruct K as (K1 & K2 & K3 & K4).
-    unfold VI. cbn. repeat split; auto; try apply RA; try apply K1. apply HI2_sym. exact K2.
+    unfold VI. cbn [oa ob hp fst snd]. split; [exact RA|]. split; [exact K1|]. split; [apply HI2_sym; exact K2|].
+    split; [intros E; apply K3; now rewrite <- E | exact K4].
   - (* AssignBA *)
     pose proof (v_assign_ok (hp s) (oa s) ma (ob s) mb _ 1 RA RB HA ltac:(congruence) O) as K. cbv zeta in K.
     destruct (v_assign (hp s) (oa s) (ob s)) as [a h1]. cbn [fst snd] in K. destruct K as (K1 & K2 & K3 & K4).
-    unfold VI. cbn. repeat split; auto; try apply RB; try apply K1. exact K2.
+    unfold VI. cbn [oa ob hp fst snd]. split; [exact K1|]. split; [exact RB|]. split; [exact K2|]. split; [exact K3 | exact K4].
   - (* SelfAssign *)
     pose proof (v_assign_ok (hp s) (oa s) ma (oa s) ma _ 1 RA RA HA ltac:(congruence) O) as K. cbv zeta in K.
     destruct (v_assign (hp s) (oa s) (oa s)) as [a h1]. cbn [fst snd] in K. destruct K as (K1 & K2 & K3 & K4).
-    unfold VI. cbn. repeat split; auto; try apply RB; try apply K1. exact K2.
+    unfold VI. cbn [oa ob hp fst snd]. split; [exact K1|]. split; [exact RB|]. split; [exact K2|]. split; [exact K3 | exact K4].
   - (* Flip *)
-    unfold VI. cbn. repeat split; auto; try apply RA; try apply RB. apply HI2_sym. exact H.
+    unfold VI. cbn [oa ob hp fst snd]. split; [exact RB|]. split; [exact RA|]. split; [apply HI2_sym; exact H|]. split; [congruence | exact O].
+Qed.
+
+Lemma fold_inv {S M O} (I : S -> M -> Prop) (f : S -> O -> S) (g : M -> O -> M) :
+  (forall s m o, I s m -> I (f s o) (g m o)) -> forall ops s m, I s m -> I (fold_left f ops s) (fold_left g ops m).
+Proof. intros Hs. induction ops as [|o ops IH]; intros s m H; simpl; auto. Qed.
+
+Lemma VI_run ops : VI (vrun ops) (vmask_run ops).
+Proof. unfold vrun, vmask_run, lrun. apply (fold_inv VI vstep vmstep VI_step). exact VI_init. Qed.
+
+Lemma VI_finish s m : VI s m ->
+  let h := vfinish s in live h = [] /\ bad h = false /\ oob h = false /\ nalloc h = nfree h.
+Proof.
+  intros (RA & RB & H & NE & O). unfold vfinish, v_destroy.
+  destruct (HI_free (hp s) _ 1 (vblk (oa s)) H) as (H1 & O1); [now left|].
+  destruct (HI_free (hfree (hp s) (vblk (oa s))) _ 0 (vblk (ob s)) H1) as (H2 & O2); [split; [now right | congruence]|].
+  destruct (HI_empty _ _ H2) as (E1 & E2 & E3); [intros id [[[-> | ->] N1] N2]; congruence|].
+  cbv zeta. repeat split; auto. congruence.
+Qed.
+
+(* ---------- parametricity of the list spec: masked contents vs std contents ---------- *)
+Section Param.
+  Variables A B : Type.
+  Variable R : A -> B -> Prop.
+  Variables (fc fr : A) (fc' fr' : B) (inj : Z -> A) (inj' : Z -> B) (cap : option nat).
+  Hypothesis Rc : R fc fc'.
+  Hypothesis Rr : R fr fr'.
+  Hypothesis Ri : forall z, R (inj z) (inj' z).
+
+  Lemma F2_length (l : list A) (l' : list B) : Forall2 R l l' -> length l = length l'.
+  Proof. induction 1; simpl; congruence. Qed.
+  Lemma F2_firstn n : forall (l : list A) (l' : list B), Forall2 R l l' -> Forall2 R (firstn n l) (firstn n l').
+  Proof. induction n; intros l l' H; simpl; [constructor|]. destruct H; constructor; auto. Qed.
+  Lemma F2_repeat (x : A) (y : B) n : R x y -> Forall2 R (repeat x n) (repeat y n).
+  Proof. intros H. induction n; simpl; constructor; auto. Qed.
+  Lemma F2_upd (l : list A) (l' : list B) : Forall2 R l l' -> forall k x y, R x y -> Forall2 R (upd l k x) (upd l' k y).
+  Proof. induction 1; intros [|k] x0 y0 H1; simpl; constructor; auto. Qed.
+
+  Lemma lstep_param a b a' b' o : Forall2 R a a' -> Forall2 R b b' ->
+    Forall2 R (fst (lstep A fc fr inj cap (a, b) o)) (fst (lstep B fc' fr' inj' cap (a', b') o)) /\
+    Forall2 R (snd (lstep A fc fr inj cap (a, b) o)) (snd (lstep B fc' fr' inj' cap (a', b') o)).
+  Proof.
+    intros Ha Hb. pose proof (F2_length _ _ Ha) as La.
+    destruct o; cbn [lstep fst snd]; unfold l_resize; rewrite <- ?La; split.
+    all: try assumption.
+    all: try (destruct (fits cap _)); try (destruct (_ <? _)); try assumption.
+    all: try (now apply F2_repeat).
+    all: try (now constructor).
+    all: try (apply Forall2_app; [assumption | repeat constructor; apply Ri]).
+    all: try (apply Forall2_app; [now apply F2_firstn | now apply F2_repeat]).
+    all: try (apply F2_upd; auto).
+  Qed.
+  Lemma lrun_param ops :
+    Forall2 R (fst (lrun A fc fr inj cap ops)) (fst (lrun B fc' fr' inj' cap ops)) /\
+    Forall2 R (snd (lrun A fc fr inj cap ops)) (snd (lrun B fc' fr' inj' cap ops)).
+  Proof.
+    unfold lrun.
+    apply (fold_inv (fun s s' => Forall2 R (fst s) (fst s') /\ Forall2 R (snd s) (snd s'))
+             (lstep A fc fr inj cap) (lstep B fc' fr' inj' cap)).
+    - intros [a b] [a' b'] o [Ha Hb]. now apply lstep_param.
+    - split; constructor.
+  Qed.
+End Param.
+
+Lemma vmask_std ops :
+  Forall2 mask_ok (fst (vmask_run ops)) (fst (std_run None ops)) /\ Forall2 mask_ok (snd (vmask_run ops)) (snd (std_run None ops)).
+Proof. apply lrun_param; simpl; auto. Qed.
+Lemma smask_std Cap ops :
+  Forall2 mask_ok (fst (smask_run Cap ops)) (fst (std_run (Some Cap) ops)) /\
+  Forall2 mask_ok (snd (smask_run Cap ops)) (snd (std_run (Some Cap) ops)).
+Proof. apply lrun_param; simpl; auto. Qed.
+
+(* where every visible cell is determined, the physical contents ARE the std contents *)
+Lemma determined_contents buf size m l : ref buf size m -> Forall2 mask_ok m l -> determined m = true ->
+  firstn size buf = map Val l.
+Proof.
+  intros (Rs & Rl & Rv) HF HD. subst size. revert buf Rl Rv. induction HF as [|x z m l Hx HF IH]; intros buf Rl Rv.
+  - reflexivity.
+  - simpl in HD. destruct x as [v|]; [|discriminate]. simpl in Hx. subst z.
+    destruct buf as [|c buf]; [simpl in Rl; lia|]. pose proof (Rv 0 v eq_refl) as E. simpl in E. injection E as ->.
+    simpl. f_equal. apply IH; [assumption | simpl in Rl; lia |]. intros i w Hi. exact (Rv (S i) w Hi).
+Qed.
+
+(* ---------- utl::static_vector ---------- *)
+Section SV.
+  Variable Cap : nat.
+  Definition sref (o : sobj) (m : list (option Z)) : Prop := ref (sbuf o) (ssize o) m /\ length (sbuf o) = Cap.
+  Definition SI (s : sobj * sobj) (m : list (option Z) * list (option Z)) : Prop := sref (fst s) (fst m) /\ sref (snd s) (snd m).
+  Definition smstep := lstep (option Z) (Some 0%Z) None Some (Some Cap).
+  Definition op_fits (o : op) : Prop := match o with Ctor n => n <= Cap | _ => True end.
+
+  Lemma sref_default : sref (s_default Cap) [].
+  Proof. unfold sref, ref, s_default. simpl. rewrite repeat_length. repeat split; auto; try lia. intros [|i] v; discriminate. Qed.
+
+  Lemma s_resize_ok o m n : sref o m -> sref (s_resize Cap o n) (l_resize (option Z) None (Some Cap) m n).
+  Proof.
+    intros ((Rs & Rl & Rv) & L). unfold s_resize, l_resize, fits. destruct (Nat.leb_spec n Cap) as [H|H].
+    - change (firstn n m ++ repeat None (n - length m)) with (m_resize m n).
+      split; [|exact L]. cbn [sbuf ssize]. split; [now rewrite (m_resize_length m n)|]. split; [lia|].
+      intros i v Hi. apply (nth_m_resize_some m n) in Hi as [Hi _]. now apply Rv.
+    - split; [split; [|split]|]; assumption.
+  Qed.
+
+  Lemma s_assign_ok dst md src ms : sref dst md -> sref src ms -> sref (s_assign Cap dst src) ms.
+  Proof.
+    intros Hd ((Rs & Rl & Rv) & L). pose proof (s_resize_ok dst md (ssize src) Hd) as K.
+    unfold s_assign. unfold s_resize in *. replace (ssize src <=? Cap) with true in * by (symmetry; apply Nat.leb_le; lia).
+    destruct K as ((Ks & Kl & _) & KL). cbn [sbuf ssize] in *.
+    split; cbn [sbuf ssize]; [|rewrite copy_cells_length; lia].
+    split; [exact Rs|]. split; [rewrite copy_cells_length; lia|].
+    intros i v Hi. assert (i < length ms) by (apply nth_error_Some; congruence).
+    rewrite nth_copy_cells by lia. replace (i <? ssize src) with true by (symmetry; apply Nat.ltb_lt; lia). now apply Rv.
+  Qed.
+
+  Lemma SI_step s m o : op_fits o -> SI s m -> SI (sstep Cap s o) (smstep m o).
+  Proof.
+    destruct s as [a b], m as [ma mb]. intros Hf [HA HB]. cbn [fst snd] in *.
+    pose proof HA as ((As & Al & Av) & AL). pose proof HB as ((Bs & Bl & Bv) & BL).
+    destruct o; unfold sstep, smstep, lstep; cbn [fst snd]; unfold SI; cbn [fst snd].
+    - split; [apply sref_default | exact HB].
+    - split; [|exact HB]. simpl in Hf. unfold fits. replace (n <=? Cap) with true by (symmetry; apply Nat.leb_le; lia).
+      unfold sref, ref, s_sized. cbn [sbuf ssize]. rewrite !repeat_length. repeat split; auto.
+      intros i v. rewrite !nth_repeat. destruct (Nat.ltb_spec i n); [|discriminate].
+      replace (i <? Cap) with true by (symmetry; apply Nat.ltb_lt; lia). congruence.
+    - split; [|exact HB]. unfold s_push, fits. rewrite <- As.
+      destruct (Nat.ltb_spec Cap (ssize a + 1)) as [H|H].
+      + replace (ssize a + 1 <=? Cap) with false by (symmetry; apply Nat.leb_gt; lia). exact HA.
+      + replace (ssize a + 1 <=? Cap) with true by (symmetry; apply Nat.leb_le; lia).
+        unfold s_resize. replace (ssize a + 1 <=? Cap) with true by (symmetry; apply Nat.leb_le; lia).
+        cbn [sbuf ssize]. split; cbn [sbuf ssize]; [|now rewrite upd_len].
+        split; [rewrite app_length; simpl; lia|]. split; [rewrite upd_len; lia|].
+        intros i w. rewrite nth_app, nth_upd. replace (ssize a + 1 - 1) with (length ma) by lia.
+        destruct (Nat.ltb_spec i (length ma)).
+        * replace (i =? length ma) with false by (symmetry; apply Nat.eqb_neq; lia). apply Av.
+        * destruct (i - length ma) as [|[|?]] eqn:E; simpl; try discriminate.
+          replace (i =? length ma) with true by (symmetry; apply Nat.eqb_eq; lia).
+          replace (length ma <? length (sbuf a)) with true by (symmetry; apply Nat.ltb_lt; lia). simpl. congruence.
+    - split; [now apply s_resize_ok | exact HB].
+    - rewrite <- As. destruct (Nat.ltb_spec i (ssize a)) as [H|H]; cbn [andb].
+      + replace (i <? Cap) with true by (symmetry; apply Nat.ltb_lt; lia). cbn [fst snd].
+        split; [|exact HB]. split; cbn [sbuf ssize]; [|now rewrite upd_len].
+        split; [now rewrite upd_len|]. split; [rewrite upd_len; lia|].
+        intros j w. rewrite !nth_upd. destruct (Nat.eqb_spec j i) as [->|Hne]; simpl.
+        * replace (i <? length ma) with true by (symmetry; apply Nat.ltb_lt; lia).
+          replace (i <? length (sbuf a)) with true by (symmetry; apply Nat.ltb_lt; lia). congruence.
+        * apply Av.
+      + split; assumption.
+    - split; exact HA.
+    - split; [exact HA | now apply (s_assign_ok b mb a ma)].
+    - split; [now apply (s_assign_ok a ma b mb) | exact HB].
+    - split; [now apply (s_assign_ok a ma a ma) | exact HB].
+    - split; assumption.
+  Qed.
+
+  Lemma SI_run ops : ctor_fits Cap ops = true -> SI (srun Cap ops) (smask_run Cap ops).
+  Proof.
+    unfold srun, smask_run, lrun. intros Hc.
+    assert (G : forall s m, SI s m -> SI (fold_left (sstep Cap) ops s) (fold_left smstep ops m)).
+    { induction ops as [|o ops IH]; intros s m H; simpl; auto. simpl in Hc. apply andb_prop in Hc as [H1 H2].
+      apply IH; auto. apply SI_step; auto. destruct o; simpl; auto. now apply Nat.leb_le. }
+    apply G. split; apply sref_default.
+  Qed.
+End SV.
+
+(* ---------- statements ---------- *)
+Lemma F2_nth {A B} (R : A -> B -> Prop) l l' : Forall2 R l l' -> forall i x, nth_error l i = Some x ->
+  exists y, nth_error l' i = Some y /\ R x y.
+Proof. induction 1; intros [|i] a Hi; simpl in *; try discriminate; [injection Hi as <-; eauto | eauto]. Qed.
+
+(* what an object shows against the std contents [l] through the mask [m] *)
+Definition agrees (buf : list cell) (size : nat) (m : list (option Z)) (l : list Z) : Prop :=
+  size = length l /\ size <= length buf /\
+  (forall i v, nth_error m i = Some (Some v) -> nth_error buf i = Some (Val v) /\ nth_error l i = Some v) /\
+  (determined m = true -> firstn size buf = map Val l).
+
+Lemma agrees_intro buf size m l : ref buf size m -> Forall2 mask_ok m l -> agrees buf size m l.
+Proof.
+  intros Hr HF. pose proof Hr as (Rs & Rl & Rv). pose proof (F2_length _ _ mask_ok _ _ HF) as HL.
+  split; [congruence|]. split; [assumption|]. split.
+  - intros i v Hi. split; [now apply Rv|]. destruct (F2_nth _ _ _ HF i _ Hi) as (y & Hy & Hm). simpl in Hm. congruence.
+  - intros HD. now apply (determined_contents buf size m l).
+Qed.
+
+Lemma vector_refinement ops :
+  let s := vrun ops in let m := vmask_run ops in let l := std_run None ops in
+  agrees (vbuf (oa s)) (vsize (oa s)) (fst m) (fst l) /\ agrees (vbuf (ob s)) (vsize (ob s)) (snd m) (snd l).
+Proof.
+  cbv zeta. destruct (VI_run ops) as (RA & RB & _). destruct (vmask_std ops) as [FA FB].
+  split; apply agrees_intro; assumption.
+Qed.
+
+Lemma vector_memory ops :
+  let s := vrun ops in
+  bad (hp s) = false /\ oob (hp s) = false /\ vblk (oa s) <> vblk (ob s) /\
+  (forall id, In id (live (hp s)) <-> id = vblk (oa s) \/ id = vblk (ob s)) /\
+  nalloc (hp s) = nfree (hp s) + 2 /\
+  let h := vfinish s in live h = [] /\ bad h = false /\ oob h = false /\ nalloc h = nfree h.
+Proof.
+  cbv zeta. pose proof (VI_run ops) as V. pose proof (VI_finish _ _ V) as F.
+  destruct V as (_ & _ & (B & L & _ & N) & NE & O). repeat split; auto; try apply L; apply F.
+Qed.
+
+Lemma static_vector_refinement Cap ops : ctor_fits Cap ops = true ->
+  let s := srun Cap ops in let m := smask_run Cap ops in let l := std_run (Some Cap) ops in
+  agrees (sbuf (fst s)) (ssize (fst s)) (fst m) (fst l) /\ agrees (sbuf (snd s)) (ssize (snd s)) (snd m) (snd l) /\
+  length (sbuf (fst s)) = Cap /\ length (sbuf (snd s)) = Cap /\ ssize (fst s) <= Cap /\ ssize (snd s) <= Cap.
+Proof.
+  intros Hc. cbv zeta. destruct (SI_run Cap ops Hc) as ((RA & LA) & (RB & LB)). destruct (smask_std Cap ops) as [FA FB].
+  pose proof RA as (_ & A2 & _). pose proof RB as (_ & B2 & _).
+  split; [apply agrees_intro; assumption|]. split; [apply agrees_intro; assumption|].
+  split; [exact LA|]. split; [exact LB|]. split; lia.
+Qed.
+
+Lemma static_vector_refuses Cap o v n :
+  (Cap < ssize o + 1 -> s_push Cap o v = o) /\ (Cap < n -> s_resize Cap o n = o).
+Proof.
+  split; intros H.
+  - unfold s_push. now replace (Cap <? ssize o + 1) with true by (symmetry; apply Nat.ltb_lt; lia).
+  - unfold s_resize. now replace (n <=? Cap) with false by (symmetry; apply Nat.leb_gt; lia).
+Qed.
+
+Lemma self_assign_identity s m : VI s m -> vstep s SelfAssign = s.
+Proof.
+  intros ((Rs & Rl & _) & _). unfold vstep, v_assign, v_resize, v_copy_into.
+  replace (length (vbuf (oa s)) <? vsize (oa s)) with false by (symmetry; apply Nat.ltb_ge; lia).
+  cbn [vbuf vsize vblk]. replace (vsize (oa s) <=? length (vbuf (oa s))) with true by (symmetry; apply Nat.leb_le; lia).
+  cbn [andb]. rewrite chk_true. unfold copy_cells. rewrite firstn_skipn. destruct s as [[ab asz ak] b h]. reflexivity.
+Qed.
+
+(* operations on A never touch B *)
+Definition a_only (o : op) : bool := match o with CopyCtor | AssignAB | Flip => false | _ => true end.
+Lemma copies_independent s o : a_only o = true -> ob (vstep s o) = ob s.
+Proof.
+  destruct o; intros H; try discriminate; unfold vstep;
+    try (destruct (i <? vsize (oa s)); [|reflexivity]);
+    repeat match goal with |- context [let (_, _) := ?e in _] => destruct e end; reflexivity.
 Qed.
